@@ -929,7 +929,8 @@ pub fn check_c26(case: &Case, p: &Parsed, trace: bool) -> C26Outcome {
             }
         }
         // 9. locations ("with path and locations filled in"): every error is located at the name
-        //    of the first field of its group; argument-coercion errors at most once, not before it
+        //    of a field of its group (one or several of the merged fields); argument-coercion
+        //    errors at most once, not before the first of them
         {
             let mut expected: Vec<(&String, &model::ErrLoc, bool)> =
                 m.errors.iter().zip(&m.error_locs).map(|(p, l)| (p, l, false)).collect();
@@ -938,7 +939,7 @@ pub fn check_c26(case: &Case, p: &Parsed, trace: bool) -> C26Outcome {
                     !*used
                         && *p == path
                         && match l {
-                            model::ErrLoc::FieldName(line, col) => locs == vec![(*line, *col)],
+                            model::ErrLoc::FieldName(group) => !locs.is_empty() && locs.iter().all(|lc| group.contains(lc)),
                             model::ErrLoc::Argument(line, col) => {
                                 locs.len() <= 1 && locs.iter().all(|lc| *lc >= (*line, *col))
                             }
